@@ -89,6 +89,7 @@ OPNMIDIplay::OPNMIDIplay(unsigned long sampleRate) :
     //m_setup.SkipForward = 0;
     m_setup.ScaleModulators     = 0;
     m_setup.fullRangeBrightnessCC74 = false;
+    m_setup.loopHooksOnly = false;
     m_setup.enableAutoArpeggio = false;
     m_setup.delay = 0.0;
     m_setup.carry = 0.0;
@@ -168,6 +169,8 @@ void OPNMIDIplay::applySetup()
         m_sequencerInterface->onloopStart_userData = hooks.onLoopStart_userData;
         m_sequencerInterface->onloopEnd = hooks.onLoopEnd;
         m_sequencerInterface->onloopEnd_userData = hooks.onLoopEnd_userData;
+        // ... and the loop behaviour the user asked for: the dumper's "stop at the loop end" ends with the dumper
+        m_sequencer->setLoopHooksOnly(m_setup.loopHooksOnly);
     }
 #endif
     // Reset the arpeggio counter
@@ -180,6 +183,9 @@ void OPNMIDIplay::partialReset()
     realTime_panic();
     m_setup.tick_skip_samples_delay = 0;
     synth.m_runAtPcmRate = m_setup.runAtPcmRate;
+    // The VGM dumper clamps the live chip count to 2: the requested count is back with the next emulator
+    if(!synth.setupLocked())
+        synth.m_numChips = m_setup.numChips;
     synth.reset(m_setup.emulator, m_setup.PCM_RATE, synth.chipFamily(), this);
     m_chipChannels.clear();
     m_chipChannels.resize(synth.m_numChannels);
@@ -201,6 +207,8 @@ void OPNMIDIplay::partialReset()
         m_sequencerInterface->onloopStart_userData = hooks.onLoopStart_userData;
         m_sequencerInterface->onloopEnd = hooks.onLoopEnd;
         m_sequencerInterface->onloopEnd_userData = hooks.onLoopEnd_userData;
+        // ... and the loop behaviour the user asked for: the dumper's "stop at the loop end" ends with the dumper
+        m_sequencer->setLoopHooksOnly(m_setup.loopHooksOnly);
     }
 #endif
 }
